@@ -297,10 +297,64 @@ def run(ctx, out):
                 "model's batching filter; (b) library copies (probe linked against libxcp) of generated trees with a recording "
                 "client updater, the real ChannelUpdater, and a wrapper logging the send order; both drivers, workers 1-8, random "
                 "thread holds, single injected faults (data calls — also LATE in the segment walk of a sparse file —, and symlink / mknod of trees with links and special files); updates are written to fd 9 so the supervisor orders them with the data "
-                "calls; (c) trees of thousands of files read by a client that drains the receiver only after copy() returned. non-trivial = >=2 Copied sends / tree with >=2 non-empty files; distinct by input")
+                "calls; (c) trees of thousands of files read by a client that drains the receiver only after copy() returned; (d) announced files renamed away / removed by another process while the first data call is held. non-trivial = >=2 Copied sends / tree with >=2 non-empty files; distinct by input")
     run_channel_r0(ctx, out)
     run_copies(ctx, out)
     run_wide(ctx, out)
+    run_vanishing(ctx, out)
+
+
+def run_vanishing(ctx, out):
+    """Files that were announced (their Size was sent) are renamed away or removed by ANOTHER process before a worker reaches
+    them: the destination ends up incomplete, so an error update must be delivered or copy() must return an error."""
+    import time
+    rng = ctx.rng
+    quick = ctx.tier == "quick"
+    sup = core.build_sup()
+    d0 = ctx.work.fresh("c12gone")
+    k = 0
+    for driver in ("parfile", "parblock"):
+        for how in ("rename", "unlink"):
+            for w in ((1,) if quick else (1, 2, 4)):
+                k += 1
+                d = os.path.join(d0, "v%d" % k)
+                os.makedirs(os.path.join(d, "src", "sub"))
+                names = ["f%d.bin" % i for i in range(8)] + ["sub/g%d.bin" % i for i in range(4)]
+                for i, nme in enumerate(names):
+                    open(os.path.join(d, "src", nme), "wb").write(bytes([65 + i]) * (66000 + i))
+                victims = [n for i, n in enumerate(names) if i % 2 == 1]
+                acted = []
+
+                def env(d=d, victims=victims, how=how, acted=acted):
+                    t0 = time.time()
+                    while time.time() - t0 < 20 and not os.path.isdir(os.path.join(d, "dst", "src", "sub")):
+                        time.sleep(0.005)
+                    for v in victims:
+                        try:
+                            if how == "rename":
+                                os.rename(os.path.join(d, "src", v), os.path.join(d, "src", v + ".moved"))
+                            else:
+                                os.unlink(os.path.join(d, "src", v))
+                            acted.append(v)
+                        except OSError:
+                            pass
+                os.mkdir(os.path.join(d, "dst"))
+                argv = [ctx.bins["probe"], "copy", driver, str(w), "65536", "chan", "--reflink=never", "--", os.path.join(d, "src"), os.path.join(d, "dst")]
+                rules = [("hold", 1500, 0, "copy_file_range", 1, "*")]
+                r = xcp.run_supervised(sup, argv, d, d, rules=rules, tag="g", timeout_ms=60000, during=env, during_delay=0.0)
+                out.case(("vanishing-announced-files", driver, how, w), nontrivial=bool(acted))
+                out.count("announced_files_vanishing")
+                missing = [n for n in names if not os.path.exists(os.path.join(d, "dst", "src", n))]
+                lines = r.stdout.split("\n")
+                reported = any(l.startswith("RET err") or l.startswith("RET panic") for l in lines) or any(l.startswith("DELIVERED E") for l in lines)
+                rep = dict(kind="announced files %sd by another process during the copy" % how, argv=argv, rules=rules, victims=victims,
+                           missing=missing[:6], stdout=r.stdout[-400:], exit=r.exit)
+                if r.meta.get("timeout") or r.exit == 124:
+                    out.violation("copy() / update stream did not end within the time bound", rep)
+                elif missing and not reported:
+                    out.violation("the destination is incomplete (%d announced files missing: they were %sd by another process) but no error update "
+                                  "was delivered and copy() returned Ok" % (len(missing), how), rep)
+                shutil.rmtree(d, ignore_errors=True)
 
 
 def run_wide(ctx, out):
